@@ -382,6 +382,30 @@ theorem newRoot_shapeW {fields : List Field} {root : B} (hc : fields.all covered
     simp only [Shape]
     exact ⟨rfl, _, rfl, hsl⟩
 
+/-! ### neither predicate excludes a type by refusing it -/
+
+/-- the data types `build_builder` refuses at their head: RunEndEncoded, Interval, a dictionary whose key type is not an
+integer type (repo fix 7359431) -/
+def refusedHead : DataType → Bool
+  | .runEndEncoded _ _ | .interval _ => true
+  | .dictionary k _ => !isIntDT k
+  | _ => false
+
+theorem newDT_refusedHead {dt : DataType} (hr : refusedHead dt = true) (path : String) (n : Bool) (md : Metadata) (b : B) :
+    newDT path dt n md ≠ .ok b := by
+  intro h
+  cases dt <;> simp [refusedHead] at hr
+  · simp [newDT, fail] at h
+  · rename_i k v
+    simp only [newDT, hr] at h
+    simp [ctx_ok, fail] at h
+  · simp [newDT, fail] at h
+
+/-- `covered` / `coveredW` are TRUE of every type `build_builder` refuses at its head: the theorems that carry them hold
+there because `to_marrow` fails at construction, not because the predicate excludes the type -/
+theorem covered_refusedHead {dt : DataType} (hr : refusedHead dt = true) : covered dt = true ∧ coveredW dt = true := by
+  cases dt <;> simp [refusedHead] at hr <;> simp [covered, coveredW, hr]
+
 /-! the statements with the stronger predicate `covered` (what the completeness theorems and the physical layer carry) -/
 
 theorem newDT_shape (dt : DataType) (path : String) (n : Bool) (md : Metadata) (b : B) (hc : covered dt = true)
